@@ -82,6 +82,10 @@ arr { pop } forall
 // All returns the corpus.  Sizes are chosen so that interesting positions
 // (eexec switch, PFB headers, readstring payloads, DSC lines) fall on both
 // sides of the scanner's 512-byte refill boundary.
+// Rejected names the inputs of All that the readers reject (they are in the corpus for what
+// happens around them: state left behind, faults after the point where reading stops).
+var Rejected = map[string]bool{"font-pop-without-othersubr": true, "font-clear-with-closefile": true}
+
 func All(seed int64) []Input {
 	rng := rand.New(rand.NewSource(seed))
 	var out []Input
@@ -365,6 +369,10 @@ func Erroneous(seed int64) []Input {
 	add("program-open-hex-at-end", "execute", []byte("1 2 add <41"))
 	add("program-open-proc-at-end", "execute", []byte("1 2 add { 3"))
 	add("program-typecheck", "execute", []byte("1 (x) add 5"))
+	// not PostScript at all, handed to the readers that check the start of the input
+	for k, txt := range []string{"", "x", "%", "ab", "%?", "hello, this is not a font", "StartFontMetrics 4.1", "\x80\x01\x05\x00\x00\x00hello", strings.Repeat("not a font ", 60)} {
+		add(fmt.Sprintf("not-postscript-%d", k), "type1", []byte(txt))
+	}
 	all := All(seed)
 	for _, in := range all {
 		switch in.Name {
